@@ -18,12 +18,13 @@ OWN = ("tiling", "nesting-or-span", "node-position")
 
 
 def mine(clause: str) -> bool:
-    return clause in OWN or clause.endswith("-position")
+    return clause in OWN or clause.endswith("-position") or clause.endswith("-error-context")
 
 
 def sources(chk: Check, tier: str):
     thorough = tier == "thorough"
     plans = [("lexM", "markup-small" if not thorough else "markup", 4 if not thorough else 4, "", ""),
+             ("lexM-breaks", "markup-breaks", 4 if not thorough else 5, "", ""),
              ("lexE-out", "expr-small" if not thorough else "expr", 3 if not thorough else 4, "{{ ", " }}"),
              ("lexE-if", "expr-small", 3 if not thorough else 4, "{% if ", " %}a{% endif %}"),
              ("lexE-for", "expr-small", 3, "{% for i in ", " %}{{ i }}{% endfor %}"),
